@@ -294,7 +294,18 @@ def _case(draw):
             cur = apply_model(cur, s)
         except (PremergeFail, Invalid, KeyError, IndexError, TypeError):
             break
-    return {'base': tdoc.from_plain(base), 'stages': stages}        # (the base as a document AST: json cannot hold integer keys)
+    base_ast = tdoc.from_plain(base)
+    if draw(st.integers(0, 5)) == 0:
+        # priorities in the base: a list whose elements carry tags of their own - growing one of them leaves the others, and the
+        # element itself, where and what they are
+        wl = tdoc.sq([tdoc.sq([tdoc.sc(draw(LEAF))], flow=True, prio=draw(st.sampled_from([-1, -1, 1])), mdstyle='short'),
+                      tdoc.sq([tdoc.sc(draw(LEAF))], flow=True), tdoc.sc(3)])
+        base_ast['items'].append(['wl', wl])
+        extra = {'ops': [{'op': draw(st.sampled_from(['append', 'extend'])), 'path': ['wl', draw(st.sampled_from([0, 0, -3]))], 'val': [draw(LEAF)], 'inlist': True}], 'sib': []}
+        if draw(st.booleans()):
+            extra['ops'].append({'op': 'extend', 'path': ['wl', 1], 'val': [draw(LEAF)], 'inlist': True})
+        stages = [extra]
+    return {'base': base_ast, 'stages': stages}        # (the base as a document AST: json cannot hold integer keys)
 
 
 def strategy():
@@ -318,7 +329,8 @@ def run_case(case):
 
 def _run_case(case):
     base, stages = _base(case), case['stages']
-    texts = [tdoc.render(tdoc.from_plain(base))] + [tdoc.render(stage_ast(s)) for s in stages]
+    b_ast = case['base'] if isinstance(case['base'], dict) and case['base'].get('t') == 'map' and 'items' in case['base'] else tdoc.from_plain(base)
+    texts = [tdoc.render(b_ast)] + [tdoc.render(stage_ast(s)) for s in stages]      # (the AST may carry priority tags on list elements)
     labels = {f'stages={len(stages)}'}
     nops = sum(len(s['ops']) for s in stages)
     nontrivial = nops >= 2
